@@ -340,7 +340,14 @@ where
         log!("{}: {:?}", "Token ahead".paint(LOG), &next_token);
 
         loop {
-            let action = self.definition.actions(state, next_token.kind)[0];
+            // A custom lexer may return a token kind with no action in the
+            // current state. That is an error, not a reason to panic.
+            let action = self
+                .definition
+                .actions(state, next_token.kind)
+                .first()
+                .copied()
+                .unwrap_or(Action::Error);
 
             match action {
                 Action::Shift(state_id) => {
